@@ -383,6 +383,8 @@ class Run:
         if "tags" in self.observe:
             ob["tags"] = {k: self.tag(k) for k in SYS_TAGS}
             ob["out"] = {k: self.tag(k) for k in ("Out1", "Out2", "Free")}
+        ob["nmarks"] = len(self.marks())
+        ob["ncmd"] = len(self.cmd_events)
         ob["cmd"] = self.cmd_events[self._ev0:]
         self._ev0 = len(self.cmd_events)
         ob["hw"] = [(r, v) for (_, r, v, _) in self.hw.wlog[self._wl0:]]
